@@ -551,6 +551,38 @@ class SymRatio(SymNum):
     return SymNum('i', z3.simplify(z3.If(s.num >= 0, s.num / s.den, -((-s.num) / s.den))))
 
 
+class SymGridRational(SymNum):
+  """exact rational k/d with k a symbolic integer and d a concrete positive integer.  Unlike a general symbolic rational
+  its lowest-terms numerator and denominator are representable: gcd(k, d) ranges over the divisors of d, and each case is a
+  decision of the explorer (d must be small: the fork is over its divisors)."""
+
+  def __init__(self, k, d):
+    self.kind = 'q'
+    self.k = k.z if isinstance(k, SymNum) else k
+    self.d = int(d)
+    self.z = z3.ToReal(self.k) / self.d if self.d != 1 else z3.ToReal(self.k)
+
+  def _gcd(self):
+    d = self.d
+    divs = [g for g in range(d, 0, -1) if d % g == 0]
+    for g in divs[:-1]:
+      rest = d // g
+      primes = [p for p in range(2, rest + 1) if rest % p == 0 and all(p % q for q in range(2, int(p ** 0.5) + 1))]
+      cond = z3.And(self.k % g == 0, *[(self.k / g) % p != 0 for p in primes])
+      if cur().decide(cond):
+        return g
+    return 1
+
+  @property
+  def numerator(s):
+    g = s._gcd()
+    return SymNum('i', z3.simplify(s.k / g))
+
+  @property
+  def denominator(s):
+    return s.d // s._gcd()
+
+
 # shadows for builtins that insist on C types (installed in the module under test only)
 
 
